@@ -448,7 +448,19 @@ func genC20(r *Rng) (string, []PQuery, []string) {
 	a, b, d := c(), c(), c()
 	n := 2 + r.Intn(4)
 	for i := 0; i < n; i++ {
-		switch r.Intn(18) {
+		switch r.Intn(20) {
+		case 18, 19:
+			// many placeholder occurrences (more than a dozen), the first ones used again at the end next to
+			// other columns: what a parameter is called and typed after is decided by its FIRST use
+			m := 9 + r.Intn(8)
+			var conds []string
+			for k := 1; k <= m; k++ {
+				conds = append(conds, fmt.Sprintf("%s = $%d", cols[(k-1)%len(cols)].Name, k))
+			}
+			for k := 0; k < 2+r.Intn(3); k++ {
+				conds = append(conds, fmt.Sprintf("%s = $%d", cols[(k+2)%len(cols)].Name, 1+r.Intn(2)))
+			}
+			add("many-occurrences", ":many", "SELECT id FROM items WHERE "+strings.Join(conds, " OR "))
 		case 14, 15, 16:
 			// the full column list of the table, in table order and under the table's names, some nullable
 			// columns wrapped in COALESCE: same names as the table, different nullability
